@@ -59,8 +59,8 @@ def run(prop, tier, replay):
         if replay:
             rp = json.load(open(replay))
             path = os.path.join(work, "replay.ndjson")
-            vf.run([bins["rec-heur"]] + rp["recorder_args"] + ["-corpus", CORPUS, "-out", path], timeout=1800)
-            _, mm, _ = tc.validate_trace(work, "HeurTrace", path, timeout=3000)
+            vf.run([bins["rec-heur"]] + rp["recorder_args"] + (["-corpus", CORPUS] if "containers" not in rp["recorder_args"] and "grav" not in rp["recorder_args"] else []) + ["-out", path], timeout=1800)
+            _, mm, _ = tc.validate_trace(work, "Containers" if "containers" in rp["recorder_args"] else "HeurTrace", path, timeout=3000)
             bad = [m for m in mm if m["rule"].startswith((prop + "/", "PANIC/"))]
             for m in bad[:3]:
                 vf.log("replay mismatch: %s" % json.dumps(m)[:800])
@@ -91,6 +91,22 @@ def run(prop, tier, replay):
                     vf.run([bins["rec-heur"]] + args + ["-out", path], timeout=3000)
                 jobs.append(dict(name="C16-grav-%d" % i, record=record, args=args))
         res = tc.run_shards(work, "HeurTrace", jobs, timeout=6000)
+        if prop == "C16":
+            # the containers the picker is built on: move.Store frames and the bounded history stack
+            cjobs = []
+            for i in range(3):
+                args = ["-mode", "containers", "-n", str(8000 if tier == "quick" else 80000), "-seed", str(vf.seed() * 9973 + i)]
+
+                def recordc(path, args=args):
+                    vf.run([bins["rec-heur"]] + args + ["-out", path], timeout=3000)
+                cjobs.append(dict(name="C16-containers-%d" % i, record=recordc, args=args))
+            cres = tc.run_shards(work, "Containers", cjobs, timeout=3000)
+            res.mm += cres.mm
+            res.events += cres.events
+            res.states += cres.states
+            res.transitions += cres.transitions
+            for kk, v in cres.counts.items():
+                res.counts[kk] = res.counts.get(kk, 0) + v
         vf.log("trace validation done %.1fs (%d events)" % (time.time() - t0, res.events))
         infra = [m for m in res.mm if m["rule"].startswith("INFRA/")]
         if infra:
